@@ -45,3 +45,4 @@ META = dict(
     technique="Lean 4 proof (induction over iterations/fuel and over the trial list; list induction for the table) + differential "
               "correspondence model vs real code with logged callbacks + property oracle in floating point",
 )
+READY = True
